@@ -173,6 +173,7 @@ def run(ctx):
             lt = R.language(item._paths_regex, mode)
             lt_nolf = R.language(re.compile(item._paths_regex.pattern, item._paths_regex.flags | re.DOTALL), mode, lf_free=True)
         except R.Unsupported as e:
+            ctx.harness_error(f"a compiled pattern for dep5 glob {g!r} is outside what vf/re2z3.py converts: {e}")
             ctx.ob(f"dep5 glob {g!r}", "RZ3", "inconclusive", detail=str(e))
             continue
         except Exception as e:  # the conversion of a valid dep5 must not crash / produce an unreadable REUSE.toml
@@ -257,6 +258,7 @@ def run(ctx):
                 lds = [R.language(p.files_pattern(), "fullmatch") for p in fps]
                 lts = [R.language(it._paths_regex, mode) for it in toml.annotations]
             except R.Unsupported as e:
+                ctx.harness_error(f"a compiled pattern for {shape} {g1!r},{g2!r} is outside what vf/re2z3.py converts: {e}")
                 ctx.ob(f"{shape} {g1!r},{g2!r}", "RZ3", "inconclusive", detail=str(e))
                 continue
             if len(lds) != len(lts):
